@@ -22,9 +22,21 @@ LEVEL = "proof"
 RULE = ("cases = (conversion, options, source automaton); all NFAs with ε: 1 state over {a,b}, 2 states over {a} "
         "(+ 2 states over {a,b} sampled / thorough: all) × 4 option combinations of from_nfa, ε-elimination and "
         "from_dfa on all DFAs ≤2 states; shaped random NFAs ≤5 states (ε-cycles, states without rows, empty target "
-        "sets, unreachable parts, rows keyed by non-states, the 2ⁿ 'n-th symbol from the end' family); non-trivial "
+        "sets, unreachable parts, rows keyed by non-states, the 2ⁿ 'n-th symbol from the end' family); empty alphabet "
+        "(exhaustive for ≤2 states + random); a single state with transitions={} (the len(states)<=1 exemption of "
+        "validate); sparse 8–12 state NFAs; non-trivial "
         "= source has ≥2 states and a non-empty, non-universal language; distinct = distinct (conversion, options, source)")
-ASSUMPTIONS = ["sources are valid automata built through the real constructors"]
+ASSUMPTIONS = [
+    "sources are valid automata built through the real constructors",
+    "input symbols are non-empty str (the typed domain AbstractSet[str]): the constructors refuse \"\" as an input "
+    "symbol (InvalidSymbolError since /repo 07f4843, checked by a probe on every run) and None as a state name; the "
+    "model types a transition label as `Option α` with ε = none, i.e. it reads the code's truthiness tests "
+    "(`if input_symbol and next_states`) as 'is not the ε key', which is what they mean for every non-empty str. "
+    "Symbols of other types that are falsy (0, 0.0, False, (), frozenset()) are OUTSIDE this domain and the code "
+    "mishandles them — replay: NFA(states={0,1}, input_symbols={0,1}, transitions={0:{0:{1}}}, initial_state=0, "
+    "final_states={1}) accepts the word [0] but DFA.from_nfa(n) rejects it (the subset construction skips the falsy "
+    "symbol 0 as if it were ε); not generated, not claimed",
+]
 EXPLANATION = ("Theorems C07_* (Props/C07.lean) are about the model; this run ties the model to the code and checks the "
                "language and structural claims on the real results with an independent product search.")
 
@@ -130,7 +142,7 @@ def do_elim(ctx: Ctx, N: NFA, origin: str):
         if w is not None:
             ok = False
             ctx.prop_fail(f"eliminate_lambda: result and source disagree on {w!r}", dict(replay, word=w))
-        elif any("" in row for q, row in R.transitions.items() if q in R.states):
+        elif any("" in row for row in R.transitions.values()):   # EVERY row, also one keyed by a non-state
             ok = False
             ctx.prop_fail("eliminate_lambda: an empty-string transition is left", replay)
         else:
@@ -156,7 +168,7 @@ def do_elim(ctx: Ctx, N: NFA, origin: str):
 
 def nth_from_end_nfa(rng):
     """The classic 2ⁿ family: n-th symbol from the end is 'a'."""
-    n = rng.randint(1, 4)
+    n = rng.randint(1, 4) if rng.random() < 0.7 else rng.randint(5, 7)   # up to 2⁷ = 128 subset states
     tr = {0: {"a": {0, 1}, "b": {0}}}
     for i in range(1, n):
         tr[i] = {"a": {i + 1}, "b": {i + 1}}
@@ -172,9 +184,126 @@ def junk_row_nfa(rng):
                final_states=n.final_states)
 
 
+def empty_alphabet_nfa(rng):
+    """input_symbols = ∅: only ε-moves are possible; the language is ∅ or {''}."""
+    k = rng.randint(1, 4)
+    st = gen.name_pool(rng, k)
+    k = len(st)
+    tr = {}
+    for q in st:
+        if rng.random() < 0.75:
+            tr[q] = {"": {rng.choice(st) for _ in range(rng.randint(0, 2))}} if rng.random() < 0.7 else {}
+    if k > 1 or rng.random() < 0.5:
+        tr.setdefault(st[0], {})
+    return NFA(states=set(st), input_symbols=set(), transitions=tr, initial_state=st[0],
+               final_states={q for q in st if rng.random() < 0.4})
+
+
+def single_state_no_row_nfa(rng):
+    """`NFA(states={q}, input_symbols=Σ, transitions={}, …)`: the `len(states) <= 1` exemption of
+    `validate` — the initial state has no transition row at all."""
+    q = rng.choice(gen.name_pool(rng, 3))
+    sy = rng.choice(list(gen.ALPHABETS) + [()])
+    return NFA(states={q}, input_symbols=set(sy), transitions={}, initial_state=q,
+               final_states={q} if rng.random() < 0.5 else set())
+
+
+def _subset_count(N: NFA, cap: int) -> int:
+    """Number of reachable subset states (own BFS over the raw table), stops at cap."""
+    def clo(S):
+        S = set(S)
+        work = list(S)
+        while work:
+            q = work.pop()
+            for t in N.transitions.get(q, {}).get("", ()):
+                if t not in S:
+                    S.add(t)
+                    work.append(t)
+        return frozenset(S)
+    start = clo({N.initial_state})
+    seen = {start}
+    work = [start]
+    while work and len(seen) < cap:
+        S = work.pop()
+        for a in N.input_symbols:
+            T = clo({t for q in S for t in N.transitions.get(q, {}).get(a, ())})
+            if T and T not in seen:
+                seen.add(T)
+                work.append(T)
+    return len(seen)
+
+
+def big_nfa(rng):
+    """8–12 states, sparse enough that the subset construction stays below a few hundred states."""
+    for _ in range(30):
+        n = rng.randint(8, 12)
+        style = rng.randrange(3)
+        names = (list(range(n)) if style == 0 else [f"q{i}" for i in range(n)] if style == 1
+                 else [(i // 4, i % 4) for i in range(n)])
+        sy = list(rng.choice([("a", "b"), ("a",), ("a", "b", "c")]))
+        dens = rng.choice([0.8, 1.1, 1.4]) / n
+        eps = rng.choice([0.0, 0.1, 0.25])
+        tr = {}
+        for i, q in enumerate(names):
+            if i and rng.random() < 0.1:
+                continue
+            row = {}
+            for a in sy:
+                ts = {t for t in names if rng.random() < dens}
+                if i + 1 < n and rng.random() < 0.35:
+                    ts.add(names[i + 1])
+                if ts or rng.random() < 0.1:
+                    row[a] = ts
+            if rng.random() < eps:
+                row[""] = {rng.choice(names)}
+            items = list(row.items())
+            rng.shuffle(items)
+            tr[q] = dict(items)
+        tr.setdefault(names[0], {})
+        keys = list(tr)
+        rng.shuffle(keys)
+        N = NFA(states=set(names), input_symbols=set(sy), transitions={k: tr[k] for k in keys},
+                initial_state=names[0], final_states={q for q in names if rng.random() < 0.3})
+        if _subset_count(N, 400) < 400:
+            return N
+    return N
+
+
+def probe_reserved_names(ctx: Ctx):
+    """The domain assumption 'symbols are non-empty str' is enforced by the constructors."""
+    r = call(lambda: NFA(states={0}, input_symbols={"", "a"}, transitions={0: {}}, initial_state=0, final_states=set()))
+    ctx.stat("probe_empty_string_symbol_refused" if r[0] == "err" and "InvalidSymbolError" in str(r[1])
+             else "probe_empty_string_symbol_NOT_refused")
+    if not (r[0] == "err" and "InvalidSymbolError" in str(r[1])):
+        ctx.note("NFA constructor accepted \"\" as an input symbol: the assumption 'symbols are non-empty str' is no "
+                 "longer enforced by the code (observed: %r)" % (r[1] if r[0] == "err" else "no exception"))
+    r = call(lambda: DFA(states={0}, input_symbols={"", "a"}, transitions={0: {"": 0, "a": 0}}, initial_state=0, final_states=set()))
+    ctx.stat("probe_dfa_empty_string_symbol_refused" if r[0] == "err" and "InvalidSymbolError" in str(r[1])
+             else "probe_dfa_empty_string_symbol_NOT_refused")
+
+
 def run(ctx: Ctx):
     rng = ctx.rng
     opts = [(r, m) for r in (False, True) for m in (False, True)]
+    probe_reserved_names(ctx)
+    # the `len(states) <= 1` exemption: a single state and no transition row at all, every alphabet size
+    for sy in [(), ("a",), ("a", "b")]:
+        for fin in (set(), {0}):
+            N = NFA(states={0}, input_symbols=set(sy), transitions={}, initial_state=0, final_states=fin)
+            for r, m in opts:
+                do_from_nfa(ctx, N, r, m, "single_state_without_row")
+            do_elim(ctx, N, "single_state_without_row")
+    # empty alphabet, exhaustively for 1 and 2 states (only ε cells)
+    for n_states in (1, 2):
+        for N in gen.all_nfas(n_states, ()):
+            for r, m in opts:
+                do_from_nfa(ctx, N, r, m, "empty_alphabet_exhaustive")
+            do_elim(ctx, N, "empty_alphabet_exhaustive")
+    for D in [DFA(states={0}, input_symbols=set(), transitions={0: {}}, initial_state=0, final_states=f)
+              for f in (set(), {0})]:
+        do_from_dfa(ctx, D, "empty_alphabet_exhaustive")
+    ctx.exhaustive("empty alphabet: all NFAs with 1 and 2 states (ε cells only) × 4 option combinations + eliminate_lambda; "
+                   "single state with transitions={} over alphabets of size 0, 1, 2")
     doms = [(1, ("a", "b"), 1.0), (2, ("a",), 1.0), (2, ("a", "b"), 1.0 if ctx.thorough() else 0.02)]
     for n_states, alpha, frac in doms:
         for N in gen.all_nfas(n_states, alpha):
@@ -201,6 +330,12 @@ def run(ctx: Ctx):
         elif k < 0.14:
             N = junk_row_nfa(rng)
             tag = "row_keyed_by_non_state"
+        elif k < 0.19:
+            N = empty_alphabet_nfa(rng)
+            tag = "empty_alphabet"
+        elif k < 0.22:
+            N = single_state_no_row_nfa(rng)
+            tag = "single_state_without_row"
         else:
             N = gen.rand_nfa(rng, 5)
             tag = "random"
@@ -209,6 +344,13 @@ def run(ctx: Ctx):
         do_elim(ctx, N, tag)
         if rng.random() < 0.3:
             do_from_dfa(ctx, gen.rand_dfa(rng, 6), "random")
+    # 8–12 state NFAs (mainly for the correspondence: larger BFS orders, larger partitions)
+    for _ in range(ctx.budget(60, 1500)):
+        N = big_nfa(rng)
+        ctx.stat(f"big_nfa_states_{len(N.states)}")
+        r, m = opts[rng.randrange(4)]
+        do_from_nfa(ctx, N, r, m, "big_8_to_12_states")
+        do_elim(ctx, N, "big_8_to_12_states")
 
 
 def search(ctx: Ctx):
